@@ -786,6 +786,19 @@ func (ex *Exec) sprintf(format StrV, sl SliceV, fr *Frame) Value {
 
 func (ex *Exec) formatArg(spec string, verb byte, arg Value, fr *Frame) StrV {
 	iv, _ := arg.(IfaceV)
+	if rv, isRV := iv.v.(RVal); isRV && verb != 'T' {
+		// fmt: a reflect.Value operand is replaced by the concrete value that it holds
+		if rv.typ == nil {
+			return StrV{s: "<invalid reflect.Value>"}
+		}
+		held := rv.get()
+		if hi, isI := held.(IfaceV); isI && types.IsInterface(rv.typ) {
+			iv = hi
+		} else {
+			iv = IfaceV{typ: rv.typ, v: held}
+		}
+		arg = iv
+	}
 	if verb == 'T' {
 		if iv.typ == nil {
 			return StrV{s: "<nil>"}
